@@ -372,6 +372,42 @@ func TestVerif_C17_enum(t *testing.T) {
 	}
 }
 
+// Every errno the kernel can hand back, at every call site: the station's error handling names a
+// handful of errnos explicitly; whatever it does for the others (and for any it singles out later)
+// must not print the endpoints the net package puts into the error text.
+func TestVerif_C17_errnos(t *testing.T) {
+	rec := vh.NewRec("C17", "errnos", "exhaustive: {IPv4, IPv6 client} x 12 call-site scenarios x every errno 1..133 (as *net.OpError in the shape net produces for that operation), first position; same oracle as 'enum'; non-trivial = the injected error's text really contains the client address; distinct by case")
+	defer rec.Flush()
+	rec.Require("error-text-carries-client-address", "something-was-logged")
+	e, h := c17Env(t)
+	if p := vh.ReplayFile(); p != "" {
+		var c c17Case
+		if _, _, err := vh.LoadReplay(p, &c); err != nil {
+			t.Fatal(err)
+		}
+		c17Check(t, rec, e, h, c)
+		return
+	}
+	rec.SetExhaustive(true)
+	idx := 0
+	addrs := []string{"v4", "v6"}
+	for n := 1; n <= 133; n++ {
+		for _, sc := range c17Scenarios {
+			for ai, addr := range addrs {
+				idx++
+				if !vh.Mine(idx) {
+					continue
+				}
+				if !vh.Thorough() && (n+ai)%2 == 1 && n > 40 {
+					// quick tier: above errno 40 each (errno, scenario) pair runs for one family only
+					continue
+				}
+				c17Check(t, rec, e, h, c17Case{Addr: addr, Scenario: sc, Err: fmt.Sprintf("errno:%d", n), Pos: 0, Err2: "eof"})
+			}
+		}
+	}
+}
+
 // handleNewConn on a real TCP connection whose descriptor cannot be obtained.
 func TestVerif_C17_newconn(t *testing.T) {
 	rec := vh.NewRec("C17", "newconn", "real loopback TCP connections handed to handleNewConn after the descriptor became unusable (closed): the only fault that can be injected into a *net.TCPConn offline; non-trivial = the File() error text contains the client's ip:port; distinct by client port")
